@@ -182,8 +182,68 @@ def run_diag(case):
     return acc.result()
 
 
+def run_debug_diff(case):
+    """debug mode never changes the verdict: the same pinned problems under debug=True and debug=False"""
+    from . import hist
+    from .. import cands as cd
+    acc = common.Acc(PREFIXES)
+    spec = case["spec"]
+    rng = random.Random(case["rng"])
+    grid = list(hist.timing_grid(spec))
+    if len(grid) > case["limit"]:
+        grid = rng.sample(grid, case["limit"])
+    for c in grid:
+        pins = pr.candidate_pins(spec, c, pin_selections=False, pin_dynamic=False)
+        a = pr.run_solve(spec, {"pins": pins, "solver": {"debug": True}})
+        b = pr.run_solve(spec, {"pins": pins, "solver": {}})
+        acc.executions += 2
+        acc.count(acc.outcomes, f"debug:{a['outcome']}/plain:{b['outcome']}")
+        if a["outcome"] in ("sat", "unsat") and b["outcome"] in ("sat", "unsat"):
+            acc.sigs.add(common.h([common.h(spec), cd.cand_key(c)]))
+            same = a["outcome"] == b["outcome"]
+            acc.count(acc.clauses, f"C19.pinned_verdict_same_as_non_debug:{'T' if same else 'F'}")
+            if not same:
+                acc.violation("C19.debug_changes_verdict", "differs",
+                              {"debug": a["outcome"], "plain": b["outcome"], "kinds": sorted(common.kinds_in(spec))[:4]},
+                              {"candidate": c})
+            if a["outcome"] == "sat":
+                rep, _P = rs.evaluate_observed(spec, a["sched"])
+                for cl, d in rep.failed():
+                    if cl.startswith(("C01.", "C02.", "C03.", "C04.", "C09.")):
+                        acc.violation("C19.debug_schedule_invalid", "admitted-invalid", {"clause": cl}, {"clause_detail": d})
+        elif "exception" in (a["outcome"], b["outcome"]) or "build_error" in (a["outcome"], b["outcome"]):
+            acc.violation("C19.exception", "exception", {"exc": (a.get("exc") or b.get("exc") or {}).get("type")},
+                          {"debug": a.get("exc"), "plain": b.get("exc")})
+        else:
+            acc.inconclusive.append(f"{a['outcome']}/{b['outcome']}")
+    acc.sample = {"spec_constraints": spec["constraints"], "pinned_candidates": len(grid), "outcomes": acc.outcomes}
+    return acc.result()
+
+
+def debug_diff_specs():
+    W = [{"name": "w0"}]
+    on = [{"task": "t0", "resource": "w0"}, {"task": "t1", "resource": "w0"}]
+    mk = lambda cons, **kw: fam.base(5, [fam.fx("t0", 2), fam.vr("t1", 1, 2, **kw)], workers=W, requirements=on,  # noqa
+                                     constraints=cons)
+    return [
+        mk([{"id": "c", "kind": "ScheduleNTasksInTimeIntervals", "tasks": ["t0", "t1"], "n": 1, "intervals": [[0, 2], [3, 5]],
+             "mode": "exact"}]),
+        mk([{"id": "c", "kind": "ResourceUnavailable", "resource": "w0", "intervals": [[0, 1], [3, 4]]}]),
+        mk([{"id": "c", "kind": "WorkLoad", "resource": "w0", "map": [[0, 2, 1], [3, 5, 1]], "mode": "max"}]),
+        mk([{"id": "c", "kind": "TasksContiguous", "tasks": ["t0", "t1"]}]),
+        mk([{"id": "c", "kind": "OrderedTaskGroup", "tasks": ["t1", "t0"], "interval": [0, 4], "mode": "lax"}], optional=True),
+        mk([{"id": "c", "kind": "ResourcePeriodicallyUnavailable", "resource": "w0", "intervals": [[1, 2]], "period": 3},
+            {"id": "d", "kind": "TaskPrecedence", "before": "t0", "after": "t1", "mode": "lax"}]),
+        mk([{"id": "c", "kind": "Or", "args": [{"kind": "TasksContiguous", "tasks": ["t0", "t1"]},
+                                               {"kind": "TaskStartAt", "task": "t0", "value": 3}]}]),
+    ]
+
+
 def generate(tier, seed):
     cases = []
+    for i, spec in enumerate(debug_diff_specs()):
+        cases.append({"cid": f"debugdiff-{i}", "family": "debug-differential", "kind": "debugdiff", "spec": spec,
+                      "limit": 30 if tier == "quick" else 300, "rng": seed + i})
     reps = 4 if tier == "quick" else 20
     for pname, conflict in conflict_patterns():
         for k in range(reps):
@@ -213,6 +273,8 @@ def generate(tier, seed):
 
 
 def run_case(case):
+    if case["kind"] == "debugdiff":
+        return run_debug_diff(case)
     return run_diag(case)
 
 
